@@ -272,9 +272,13 @@ static void do_kern (char **w, int n) {
 }
 
 #ifndef HC_NO_MAIN
+/* watchdog: a request that never completes (a wedged read, a lost wake-up) ends the run at that op instead of hanging the check */
+static void on_alarm (int sig) { static const char m[] = "h_cred: WATCHDOG: request did not complete within 90 s\n"; (void) sig; (void) !write (2, m, sizeof (m) - 1); _exit (3); }
+
 int main (void) {
     char *line;
     signal (SIGPIPE, SIG_IGN);
+    signal (SIGALRM, on_alarm);
     conf_defaults ();
 #ifndef HC_TOY
     crypto_init (); md_init_subsystem (); cipher_init_subsystem ();
@@ -282,6 +286,7 @@ int main (void) {
     replay_init ();
     while ((line = hx_getline (stdin))) {
         char **w = malloc (64 * sizeof (char *)); int n = hx_split (line, w, 64);
+        alarm (90);
         if (n >= 3 && !strcmp (w[0], "cred") && !strcmp (w[1], "req")) do_req (w, n);
         else if (n >= 2 && !strcmp (w[0], "cred") && !strcmp (w[1], "conf")) { set_env (w + 2, n - 2); puts ("ok"); }
         else if (n >= 2 && !strcmp (w[0], "cred") && !strcmp (w[1], "replay-reset")) { replay_fini (); replay_init (); puts ("ok"); }
@@ -290,6 +295,7 @@ int main (void) {
         else if (n >= 2 && !strcmp (w[0], "kern")) do_kern (w, n);
         else puts ("bad-op");
         fflush (stdout);
+        alarm (0);
         free (w); free (line);
     }
     replay_fini ();
